@@ -31,7 +31,7 @@ bool muggle_memory_pool_init(muggle_memory_pool_t* pool, uint32_t init_capacity,
 		pool->memory_pool_data_bufs = NULL;
 		return false;
 	}
-	pool->memory_pool_data_bufs[0] = (void*)malloc(block_size * init_capacity);
+	pool->memory_pool_data_bufs[0] = (void*)malloc((size_t)block_size * init_capacity);
 	if (pool->memory_pool_data_bufs[0] == NULL)
 	{
 		free(pool->memory_pool_data_bufs);
@@ -66,7 +66,7 @@ bool muggle_memory_pool_init(muggle_memory_pool_t* pool, uint32_t init_capacity,
 	uint32_t i;
 	for (i = 0; i < init_capacity; ++i)
 	{
-		pool->memory_pool_ptr_buf[i] = (void*)((char*)ptr_buf + i * block_size);
+		pool->memory_pool_ptr_buf[i] = (void*)((char*)ptr_buf + (size_t)i * block_size);
 	}
 
 	return true;
@@ -147,7 +147,7 @@ bool muggle_memory_pool_ensure_space(muggle_memory_pool_t* pool, uint32_t capaci
 		return false;
 	}
 	memcpy(new_bufs, pool->memory_pool_data_bufs, sizeof(void*) * pool->num_buf);
-	new_bufs[pool->num_buf] = (void*)malloc(pool->block_size * delta_size);
+	new_bufs[pool->num_buf] = (void*)malloc((size_t)pool->block_size * delta_size);
 	if (new_bufs[pool->num_buf] == NULL)
 	{
 		free(new_bufs);
@@ -250,7 +250,7 @@ bool muggle_memory_pool_ensure_space(muggle_memory_pool_t* pool, uint32_t capaci
 	uint32_t i;
 	for (i = 0; i < delta_size; ++i)
 	{
-		new_ptr_buf[offset + i] = (void*)((char*)pool->memory_pool_data_bufs[pool->num_buf] + i * pool->block_size);
+		new_ptr_buf[offset + i] = (void*)((char*)pool->memory_pool_data_bufs[pool->num_buf] + (size_t)i * pool->block_size);
 	}
 
 	// free old pointer buffer and reset pointer buffer
